@@ -526,6 +526,9 @@ func (run *vwRun) flushRef(R *vwReplica, afterRestore bool, ref *vwDump) {
 		at := map[string]string{"field": df.general}
 		if !afterRestore {
 			at["cmd"] = names[len(names)-1]
+			if len(names) > 1 {
+				at["cmd"] = "batch" // which entry of the batch did it is not observable
+			}
 		} else {
 			at["phase"] = "replay"
 		}
